@@ -100,6 +100,30 @@ func runC13(r *Rng, n int, tier string) {
 			p.Opts["emit_json_tags"] = true
 			p.Opts["emit_db_tags"] = true
 		}
+		twin := false
+		if p.RawSchema == "" && (i%4 == 1 || r.Chance(20)) {
+			// a table and its twin (same columns, another name — an archive table): projections that mix the two
+			// have exactly the shape of the first table's model without being its row, next to queries that are
+			t0 := p.Tables[0]
+			tw := PTable{Name: t0.Name + "_archive", Cols: append([]PCol{}, t0.Cols...)}
+			p.Tables = append(p.Tables, tw)
+			var mixed, plain, fromTwin []string
+			for k, c := range t0.Cols {
+				plain = append(plain, c.Name)
+				fromTwin = append(fromTwin, "b."+c.Name)
+				if k%2 == 1 {
+					mixed = append(mixed, "b."+c.Name)
+				} else {
+					mixed = append(mixed, "a."+c.Name)
+				}
+			}
+			p.Queries = append(p.Queries,
+				PQuery{Name: "TwinMixed", Cmd: ":many", SQL: fmt.Sprintf("SELECT %s FROM %s a JOIN %s b ON a.id = b.id", strings.Join(mixed, ", "), t0.Name, tw.Name)},
+				PQuery{Name: "TwinPlain", Cmd: ":many", SQL: fmt.Sprintf("SELECT %s FROM %s", strings.Join(plain, ", "), t0.Name)},
+				PQuery{Name: "TwinOther", Cmd: ":many", SQL: fmt.Sprintf("SELECT %s FROM %s a JOIN %s b ON a.id = b.id", strings.Join(fromTwin, ", "), t0.Name, tw.Name)},
+				PQuery{Name: "TwinStar", Cmd: ":many", SQL: fmt.Sprintf("SELECT * FROM %s", tw.Name)})
+			twin = true
+		}
 		collide := false
 		var known []string
 		if p.RawSchema == "" && engine == "postgresql" && r.Chance(35) {
@@ -126,6 +150,9 @@ func runC13(r *Rng, n int, tier string) {
 		tags := []string{engine}
 		if collide {
 			tags = append(tags, "colliding-identifiers")
+		}
+		if twin {
+			tags = append(tags, "twin-table")
 		}
 		oracle := ""
 		var detail J
